@@ -104,10 +104,15 @@ def node_shape(db, ctx):
     ctx.floor(3)
     r = db.one("resolve_best_path", "StatefulTokenizer")
     ok = False
+    from ..inline import nf
+    import re
     for n, ps in walk(r.hir):
-        if n.get("k") == "If" and "is_oov()" in render(n["cond"]):
-            t = render(n["then"])
-            ok = "curr_slice_c(inner.char_range())" in t and "inner.word_id().word()" in t and "pos_id" in t and "surface" in t
+        if n.get("k") == "Struct" and (n.get("path") or "").endswith("WordInfoData"):
+            pcs = path_conditions(n.get("id"), r.hir) or []
+            under_oov = any(p and re.fullmatch(r"\w+\.word_id\(\)\.is_oov\(\)", nf(a)) for c_, pol in pcs if isinstance(c_, dict) for a, p in atoms(c_, pol))
+            fl = {x["name"]: nf(x["e"]) for x in n["fields"] if "e" in x}
+            ok = under_oov and re.fullmatch(r"(\w+)\.word_id\(\)\.word\(\)", fl.get("pos_id", "")) is not None and \
+                re.fullmatch(r"self\.input\.curr_slice_c\((\w+)\.char_range\(\)\)(\.to_owned\(\)|\.to_string\(\)|\.into\(\))?", fl.get("surface", "")) is not None
     ctx.ob("resolve_best_path|oov-word-info", ok, "OOV word info = {pos_id: word_id().word(), surface: curr_slice_c(char_range())}: %s" % ok, fn=r)
     m = db.one("is_oov", "Morpheme")
     ok = any(is_call(c) and path_ends(callee(c), "WordId::is_oov") for c, _ in walk(m.hir))
@@ -142,28 +147,34 @@ def invoke(db, ctx):
             if s == ["!cinfo.is_invoke", "other_words.not_empty()"]:
                 ok = True
     ctx.ob("skip-iff-not-invoke-and-others", ok, "`if !cinfo.is_invoke && other_words.not_empty() { continue }`: %s" % ok, fn=f)
-    grp = None
-    for n, ps in walk(f.hir):
-        if n.get("k") == "If" and render(n["cond"]).endswith(".is_group"):
-            for c, _ in walk(n["then"]):
-                if is_call(c) and path_ends(callee(c), "get_oov_node"):
-                    grp = [_span_arg(a) for a in call_args(c)][2:]
-                elif is_call(c) and callee(c) in db.fns:
-                    # a private helper that builds the nodes: its (start, end) parameters are what reaches get_oov_node
-                    g = db.fns[callee(c)]
-                    plist = [p_.get("name") for p_ in (g.info.get("params") or [])]
-                    for c2, _ in walk(g.hir or {}):
-                        if is_call(c2) and path_ends(callee(c2), "get_oov_node"):
-                            inner = [local_name(a) for a in call_args(c2)][2:]
-                            if all(nm in plist for nm in inner):
-                                args = call_args(c)
-                                grp = [_span_arg(args[plist.index(nm)]) for nm in inner]
-    ctx.ob("grouped-candidate-span", grp == ["offset", "offset + run"], "grouped candidate = get_oov_node(oov, %s) (must span offset .. offset + "
-                                                                       "cat_continuous_len(offset))" % grp, fn=f)
-    run = any(n.get("k") == "Let" and n["pat"].get("name") == "char_len" and "cat_continuous_len(offset)" in render(n["init"]) for n, _ in walk(f.hir))
-    brk = any(n.get("k") == "If" and exit_kind(n["then"]) == "break" and cmp_atom(n["cond"]) and cmp_atom(n["cond"])[0] == "Gt" and "sublength" in render(n["cond"]) and "llength" in render(n["cond"])
-              for n, _ in walk(f.hir))
-    ctx.ob("run-bounded", run and brk, "char_len = cat_continuous_len(offset) (%s); per-length loop breaks when sublength > llength (%s)" % (run, brk), fn=f)
+    # what reaches get_oov_node(oov, start, end), through helpers and hoisted lets, and under which conditions
+    from ..inline import expanded_calls, nf
+    import re
+    RUN = r"\w+\.cat_continuous_len\(offset\)"
+    DIST = r"\w+\.char_distance\(offset, \w+\)"
+    grp, per = [], []
+    for e in expanded_calls(db, f, "get_oov_node"):
+        a = e["args"]
+        if len(a) < 4:
+            continue
+        (grp if any(p and c.endswith(".is_group") for c, p in e["conds"]) else per).append((a[2], a[3]))
+    okg = bool(grp) and all(s == "offset" and re.fullmatch(r"\((%s \+ offset|offset \+ %s)\)" % (RUN, RUN), en) for s, en in grp)
+    ctx.ob("grouped-candidate-span", okg, "grouped candidate(s) = get_oov_node(oov, %s) (must span offset .. offset + "
+                                          "cat_continuous_len(offset))" % grp, fn=f)
+    okp = bool(per) and all(s == "offset" and re.fullmatch(r"\((%s \+ offset|offset \+ %s)\)" % (DIST, DIST), en) for s, en in per)
+    ctx.ob("per-length-candidate-span", okp, "per-length candidate(s) = get_oov_node(oov, %s) (must span offset .. offset + char_distance(offset, i))" % per, fn=f)
+    # the per-length loop stops when the candidate is longer than the remaining run: `dist > L` where L starts as the run length
+    brk = False
+    for n, _ in walk(f.hir):
+        if n.get("k") == "If" and exit_kind(n["then"]) == "break" and cmp_atom(n["cond"]):
+            op, l, r = cmp_atom(n["cond"])
+            if op in ("Lt", "Le"):
+                op, l, r = {"Lt": "Gt", "Le": "Ge"}[op], r, l
+            lim = peel_casts(r)
+            if op == "Gt" and re.fullmatch(DIST, nf(l)) and lim.get("k") == "Path" and (
+                    ("mut_init" in lim and re.fullmatch(RUN, nf(lim["mut_init"]))) or re.fullmatch(RUN, nf(lim))):
+                brk = True
+    ctx.ob("run-bounded", brk, "per-length loop breaks when char_distance(offset, i) > (remaining) run length, the limit being initialised from cat_continuous_len(offset): %s" % brk, fn=f)
     cats = any(fl and "cat_at_char(offset)" in render(fl[0]) for n, fl, ps in _loops(f))
     ctx.ob("iterates-all-classes", cats, "candidates are generated for every class in cat_at_char(offset): %s" % cats, fn=f)
 
@@ -288,3 +299,26 @@ def run_intersection(db, ctx):
     ctx.ob("continuing-branch-narrows", ok and have_pos and have_neg,
            "assignments of the carried class set: %s (must be the intersection where it is non-empty, the character's own classes where it is empty, "
            "and nothing unconditional)" % verdicts, fn=f)
+
+
+@rule("C13.units", "OOV providers: offsets and lengths keep their index space (node spans and created-word lengths in code points of the "
+                   "normalised text; regex / byte positions converted through ch_idx before use) — the units engine of C01 over plugin::oov")
+def oov_units(db, ctx):
+    from ..units import Units
+    n = 0
+    for k, f in sorted(db.fns.items()):
+        if f.pkg != "sudachi" or not f.hir or "::plugin::oov::" not in k:
+            continue
+        u = Units(db, f)
+        conflicts, reached = u.check()
+        seen = set()
+        for node, msg in conflicts:
+            if msg in seen:
+                continue
+            seen.add(msg)
+            ctx.ob("%s|%s" % (f.short(), msg[:80]), False, "%s: index-space conflict — %s" % (f.short(), msg), fn=f,
+                   site=node.get("sp") if isinstance(node, dict) else None)
+        if reached and not conflicts:
+            n += 1
+            ctx.ob("%s|consistent" % f.short(), True, "%s: %d seeded use-sites reached with a known space, all consistent" % (f.short(), reached), fn=f)
+    ctx.floor(3)
